@@ -28,7 +28,7 @@ ASSUMPTIONS = ['the object interface (Fitter.fit + keep) is the reference for re
                'filter_output may raise on a record with zero fits, but then must raise the same class on every channel']
 PROBES = ['zero_fit_record_reached_consumer', 'ineligible_line_skipped', 'short_line_ended_input', 'lines_after_terminator_ignored',
           'preexisting_output_replaced', 'restart_after_crash', 'restart_after_enospc', 'prompt_n_abort', 'channel_list', 'channel_obj',
-          'channel_path', 'nan_result_record', 'crash_inside_metadata', 'no_final_newline']
+          'channel_path', 'nan_result_record', 'crash_inside_metadata', 'no_final_newline', 'prelude_epoch']
 
 
 def budgets(tier):
@@ -70,6 +70,9 @@ def generate(rng, tier, idx):
                       # non-default options of the consumers (legal values; must not change what the channels agree on)
                       'show_convolved': rng.random() < 0.5, 'plot_mode': rng.choice(['A', 'A', 'I']), 'plot_max': rng.choice([None, None, 1, 3]),
                       'memmap': rng.random() < 0.7, 'additional': rng.random() < 0.3, 'header': rng.random() < 0.8})
+    if rng.random() < 0.3:
+        from ..author import prelude_spec
+        sc['prelude'] = {'world': prelude_spec(w, rng), 'seed': rng.randrange(1 << 30)}
     sc['channel'] = channel
     sc['steps'] = steps
     return sc
@@ -117,6 +120,8 @@ def _execute(sc, sim, out):
     W = World(sc['world'])
     rng = random.Random(sc['theta_seed'])
     sc = dict(sc, theta=pipe.theta_for(W, rng, len(W.fspec), dmin=sc['drange'][0]))
+    if sc.get('prelude'):
+        pipe.run_prelude(sim, sc, out, d=sim.path('pkg'))
     d = W.write(sim.path('pkg'))
     r = pipe.call(pipe.convolve_model_dir, d, W.filters())
     if r[0] != 'ok':
@@ -325,6 +330,8 @@ def repair(sc):
 
 
 def lowerings(sc, viol=None):
+    if sc.get('prelude'):
+        yield dict(sc, prelude=None)
     if sc['fault'] is not None:
         yield dict(sc, fault=None, restart_reply='y')
     if sc['preexisting'] is not None:
